@@ -361,6 +361,51 @@ pub fn check_struct(t: &Tree, m: &M) -> Result<(), String> {
     }
 }
 
+/// Take the adapters apart with `into_inner()` and compare every piece with the model.
+fn dismantle(t: Tree, m: &M) -> Result<(), String> {
+    match (t, m) {
+        (Tree::Take(tk), M::Take(mi, lim)) => {
+            if tk.limit() != *lim {
+                return Err(format!("Take::limit() = {} but {} bytes of the limit remain", tk.limit(), lim));
+            }
+            let inner: Box<Tree> = tk.into_inner();
+            dismantle(*inner, mi).map_err(|e| format!("Take::into_inner: {}", e))
+        }
+        (Tree::Chain(c), M::Chain(a, b)) => {
+            let (x, y): (Box<Tree>, Box<Tree>) = c.into_inner();
+            dismantle(*x, a).map_err(|e| format!("Chain::into_inner().0: {}", e))?;
+            dismantle(*y, b).map_err(|e| format!("Chain::into_inner().1: {}", e))
+        }
+        (other, m) => check_struct(&other, m),
+    }
+}
+
+/// Advance the innermost buffer that still has bytes by one, through the mutable accessors only.
+/// Returns false if nothing could be advanced. The model is updated accordingly (limits unchanged).
+fn poke(t: &mut Tree, m: &mut M) -> bool {
+    match (t, m) {
+        (Tree::Take(tk), M::Take(mi, _)) => poke(tk.get_mut(), mi),
+        (Tree::Chain(c), M::Chain(a, b)) => {
+            if a.len() > 0 {
+                poke(c.first_mut(), a)
+            } else {
+                poke(c.last_mut(), b)
+            }
+        }
+        (Tree::Ref(rb), M::Wrap(mi)) => poke(&mut *rb.0, mi),
+        (Tree::Dyn(_), _) => false,
+        (leaf, M::Leaf(v)) => {
+            if v.is_empty() {
+                return false;
+            }
+            leaf.advance(1);
+            v.remove(0);
+            true
+        }
+        _ => false,
+    }
+}
+
 // ------------------------------------------------------------------ operations
 
 #[derive(Clone, Copy, Debug, PartialEq, Eq, Hash)]
@@ -379,6 +424,10 @@ pub enum Op {
     /// terminal: into_iter().collect()
     /// consume through IntoIter: 0 = next() loop with size_hint checks, 1.. = iterator adaptors (nth / skip / step_by / last / count)
     IntoIter(u8),
+    /// take the adapters apart with into_inner() (recursively) and compare every piece with the structural model
+    Dismantle,
+    /// advance the innermost buffer by one byte through get_mut() / first_mut() / last_mut(), bypassing the adapters
+    PokeInner,
 }
 
 pub enum Root {
@@ -628,7 +677,7 @@ pub fn apply(root: &mut Root, m: &mut M, op: Op, stats: &mut Stats) -> Result<bo
                 }
             }
         }
-        Op::IntoIter(_) => return Ok(false),
+        Op::IntoIter(_) | Op::Dismantle | Op::PokeInner => return Ok(false),
     }
     Ok(true)
 }
@@ -767,9 +816,11 @@ fn ops_at(root_is_take: bool, reader: bool, rem: usize, cur_limit: Option<usize>
             v.push(Op::Consume(k));
         }
     }
-    for mode in 0..=N_ITER_MODES {
+    for mode in 0..=(if reader { 0 } else { N_ITER_MODES }) {
         v.push(Op::IntoIter(mode));
     }
+    v.push(Op::Dismantle);
+    v.push(Op::PokeInner);
     v
 }
 
@@ -793,6 +844,23 @@ pub fn run_sequence_inner(spec: &Spec, reader: bool, seq: &[Op], parity_odd: boo
         observe(&root, &m, stats)?;
         let mut cont = true;
         for (i, op) in seq.iter().enumerate() {
+            if let Op::Dismantle = op {
+                let t = match root {
+                    Root::Plain(t) => t,
+                    Root::Reader(r) => r.into_inner(),
+                };
+                dismantle(t, &m).map_err(|e| f12("into_inner", e))?;
+                return Ok(None);
+            }
+            if let Op::PokeInner = op {
+                if poke(root.tree_mut(), &mut m) {
+                    observe(&root, &m, stats).map_err(|mut f| {
+                        f.msg = format!("after advancing the innermost buffer by one byte through get_mut()/first_mut()/last_mut(): {}", f.msg);
+                        f
+                    })?;
+                }
+                return Ok(None);
+            }
             if let Op::IntoIter(mode) = op {
                 if *mode == 0 {
                     into_iter_check(root, &m)?;
